@@ -55,6 +55,10 @@ func runC13(run *Run, replay string) {
 			ts, _ := tfScenario(r)
 			scs = append(scs, ts)
 		}
+		if bi%3 == 0 {
+			// fixed-value constraints against matching and non-matching written values (own random stream)
+			scs = append(scs, literalValueFocusScenario(rand.New(rand.NewSource(subSeed(run.Res.Seed, 777000+bi)))))
+		}
 		for si, sc := range scs {
 			sc.W.Collect()
 			f := sc.Main.Ctx.Files[sc.File]
@@ -141,6 +145,8 @@ func runC13(run *Run, replay string) {
 				}
 			}
 			run.Case("tokens", []S{sc.schemaS(), bodyS(body), Str(string(sc.Src))}, canonStrings(bodyLevel))
+			// the complete result against the model of body-level and value-level tokens
+			allTokensCase(run, sc)
 			if len(run.Res.Samples) < 3 && len(toks) > 3 {
 				run.Sample(map[string]interface{}{"src": string(sc.Src), "tokens": Show(resultS(toks))})
 			}
